@@ -391,9 +391,9 @@ def run(ctx) -> None:
     bad = core.check_bases()
     if bad:
         raise core.AnchorMissing("class hierarchy changed: " + "; ".join(bad))
-    _funnel(ctx)
-    _defaults(ctx)
-    _abscase(ctx)
+    ctx.step(_funnel, ctx)
+    ctx.step(_defaults, ctx)
+    ctx.step(_abscase, ctx)
     dm, tzm = pmod("datetime"), pmod("tz.timezone")
     sites = recon.sites_in(dm, ["DateTime.create"]) + recon.sites_in(tzm, ["FixedTimezone.convert"])
     for s in sites:
